@@ -74,6 +74,18 @@ fn worker(dir: &str, release: bool) -> i32 {
     }
 }
 
+/// Worker processes are started from a private copy of this executable: a `cargo build` by somebody else during the
+/// run replaces target/debug/sv_c01, and `current_exe()` would then point at a deleted file.
+fn worker_exe() -> std::path::PathBuf {
+    static EXE: std::sync::OnceLock<std::path::PathBuf> = std::sync::OnceLock::new();
+    EXE.get_or_init(|| {
+        let me = std::env::current_exe().unwrap();
+        let d = scratch_dir("c01-exe");
+        let copy = d.join("sv_c01");
+        if std::fs::copy(&me, &copy).is_ok() { copy } else { me }
+    }).clone()
+}
+
 fn pkg_timeout(n: usize) -> std::time::Duration {
     let base: u64 = std::env::var("VERIF_C01_TIMEOUT").ok().and_then(|s| s.parse().ok()).unwrap_or(900);
     std::time::Duration::from_secs(base + 3 * n as u64)
@@ -85,7 +97,7 @@ fn run_pkg(items: &[&Item], tag: &str, dump: &Option<String>) -> Result<BTreeMap
     let mut src = package_prelude();
     for it in items { src.push_str(&it.sw); }
     if let Some(dd) = dump { let _ = std::fs::create_dir_all(dd); let _ = std::fs::write(format!("{dd}/{tag}.sw"), &src); }
-    let exe = std::env::current_exe().map_err(|e| e.to_string())?;
+    let exe = worker_exe();
     let mut kids = vec![];
     for release in [false, true] {
         // one directory per profile: the two builds must not share `out/`
@@ -269,7 +281,7 @@ fn choose_e2e(n: usize, r: &mut Rng) -> Vec<(String, std::path::PathBuf, String)
 }
 
 fn spawn_e2e(chosen: &[(String, std::path::PathBuf, String)]) -> Vec<E2eKid> {
-    let exe = std::env::current_exe().unwrap();
+    let exe = worker_exe();
     let mut kids = vec![];
     for (name, dir, expected) in chosen {
         for release in [false, true] {
@@ -337,6 +349,7 @@ fn main() {
     if v.len() >= 4 && v[1] == "--e2e-worker" { std::process::exit(e2e_worker(&v[2], v[3] == "release")); }
     let a = args();
     quiet_panics();
+    let _ = worker_exe();
     let seed = seed_from_env();
     let mut dump = None;
     let mut pkg_size = 120usize;
@@ -426,4 +439,5 @@ fn main() {
     }
     out.flush().unwrap();
     eprintln!("sv_c01: {} programs ({} corpus), {} without result, {:?}", items.len(), ncorpus, missing, t0.elapsed());
+    if let Some(d) = worker_exe().parent() { if d.to_string_lossy().contains("c01-exe") { let _ = std::fs::remove_dir_all(d); } }
 }
